@@ -30,6 +30,11 @@ def jobs(tier):
             for mode in ('Build', 'InMemoryBuild'):
                 js.append({'name': 'stale dependency output shape=%d %s %s' % (shape, kind, mode), 'harness': (H, 'h_deps'),
                            'params': {'mode': mode, 'shape': shape, 'kind': kind, 'stale_output': True}})
+    # whole tree, built twice by the real coordinator + real preprocess: second build == first build
+    for wb in (False, True):
+        js.append({'name': 'tree built twice (txtpp-shaped temp target=%s)' % wb, 'harness': (H, 'h_tree'),
+                   'params': {'mode': 'Build', 'second_mode': 'Build', 'inputs': ['.'], 'recursive': True, 'with_bad_temp': wb, 'compare_runs': True},
+                   'max_steps': 6_000_000})
     return js
 
 
@@ -38,7 +43,7 @@ BOUNDS = {'quick': '8 source scenarios + 2-line sources; pre-existing output / t
           'thorough': 'pre-states of length 0-6, all 2-line sources'}
 ASSUMPTIONS = ['D1-D12; generated paths hold regular files or nothing (no directories / symlinks)',
                'SIGKILL at any point is over-approximated by "arbitrary content of the generated paths"; real signal delivery is not modelled']
-COVERS_REQUIRED = ['both_ok', 'both_fail', 'temp', 'deps_reported_Build']
+COVERS_REQUIRED = ['both_ok', 'both_fail', 'temp', 'deps_reported_Build', 'tree_twice']
 
 
 def finding_key(v, detail):
@@ -56,6 +61,8 @@ def replay(native, v):
     d = v['data']
     if d['op'] == 'deps':
         return replay_deps(v)
+    if d['op'] == 'tree':
+        return replay_tree(v)
     model = d['model']
     a = ppreplay.run_native_history(d, model, [((), True)])[0]
     d2 = dict(d, pre_out=None, pre_temp=None)
